@@ -31,7 +31,7 @@ PROPS["C04"] = {
 
 PROPS["C05"] = {
     "technique": "property-based testing (rapid): generated signature multisets vs set-of-(prefix,hash) model, three reader kinds, two file formats",
-    "level_text": "Generated-input search: signature multisets are generated per two-byte prefix with bucket populations 0,1,2,3,..,2^k-1,2^k,2^k+1, duplicates, edge prefixes, 1..1500 prefixes, one prefix filled to 15 999..32 001 entries (around the writer's 16 000-entry reservation) with populated neighbours, and three insertion orders; after Seal every added signature must be present through mmap, os.File and in-memory readers, Writer.Has must agree with the sealed file, and a positive answer on a probe requires a (prefix,hash) of the model. Exploration level.",
+    "level_text": "Generated-input search: signature multisets are generated per two-byte prefix with bucket populations 0,1,2,3,..,2^k-1,2^k,2^k+1, duplicates, edge prefixes, 1..1500 prefixes, one prefix filled to 15 999..32 001 entries (around the writer's 16 000-entry reservation) with populated neighbours, and three insertion orders; the sealed file is also read by 8 goroutines sharing one reader (mapped file, and a ReaderAt that yields after every read); after Seal every added signature must be present through mmap, os.File and in-memory readers, Writer.Has must agree with the sealed file, and a positive answer on a probe requires a (prefix,hash) of the model. Exploration level.",
     "level_note": "Trusted: sha-256 derivation of signatures from drawn seeds; the package's exported Hash() is used only for the 'present only if hash-equal' direction. Truncated/corrupt files are judged by C12/C13.",
     "rule": ("rapid draws a shape class, a seed, per-prefix bucket specs (prefix, population from {0..9,15..17,31..33,..,255..257,1000}, duplicates), insertion order and metadata size; "
              "signatures are derived from the seed; 200 absent probes per case, half forced into populated prefixes. non-trivial = some bucket with >=3 distinct hashes and >=1 duplicate; distinct by case hash"),
@@ -50,7 +50,7 @@ BUCKET_RESERVE = [{"file": "bucketteer/write.go", "rules": [{"old": "16_000", "n
 
 PROPS["C01"] = {
     "technique": "property-based testing (rapid): generated well-formed epoch CARs with ground-truth offset table; every object/slot/signature looked up through the real `index all` output and a loaded Epoch",
-    "level_text": "Generated-input search over well-formed epoch CARs built by the shared generator (reference dag-cbor encoder, own CAR writer): createAllIndexes runs on each, then every object is fetched by CID through the index and through Epoch.GetNodeByCid and compared with the generator's offset/length/bytes, every slot and first signature is resolved, block times and sig-exists are checked. Classes forced: 1/2/3-byte section-length varints, three header lengths, local file vs HTTP ReaderAt, bulk epochs at the 10000-per-bucket boundaries. Exploration level.",
+    "level_text": "Generated-input search over well-formed epoch CARs built by the shared generator (reference dag-cbor encoder, own CAR writer): createAllIndexes runs on each, then every object is fetched by CID through the index and through Epoch.GetNodeByCid and compared with the generator's offset/length/bytes, every slot and first signature is resolved, block times and sig-exists are checked. Classes forced: 1/2/3-byte section-length varints, four root-CID shapes including a CAR header longer than 127 bytes (two-byte length prefix; identity root CID), last block on the last slot of the epoch, local file vs HTTP ReaderAt, bulk epochs at the 10000-per-bucket boundaries. Exploration level.",
     "level_note": "Trusted: ipld-prime bindnode+dag-cbor encoder, solana-go marshalling, zstd, protobuf, sha-256 and the ~40-line CAR writer of lib/cargen. Disk faults during sealing are not injected.",
     "rule": ("rapid draws an epoch spec (epoch number, 1..12 blocks with slot gaps, 0..3 entries, 0..3 tx per entry, legacy/v0/vote tx, metadata 0..40 KB in 1..23 frames with fan-out 1..10, rewards, "
              "root CID hash kind = header length, data-frame variants); bulk unit appends 99..10001 uniform blocks. non-trivial = >=2 blocks, >=2 transactions and >=1 section with a 2- or 3-byte length varint; distinct by case hash"),
@@ -63,7 +63,7 @@ PROPS["C01"] = {
 
 PROPS["C18"] = {
     "technique": "small-scope exhaustive schedule enumeration (harness-owned gates) + rapid-sampled larger schedules; oracle = outcome vector",
-    "level_text": "Every outcome vector in {success,error,not-found}^n, every concurrency limit and every completion order feasible for that limit is enumerated (n<=4 quick, n<=6 thorough) by gating each job on its own channel, plus rapid samples for n up to 9; the result must be a successful job's value when one exists, else the complete error list; the call must return and leave no goroutine behind. Unit epoch-search applies the same oracle to the caller, MultiEpoch.findEpochNumberFromSignature: 2..5 of five loaded epochs, search concurrency -1..16, each epoch's signature-existence index replaced by a gated stand-in answering present / absent / I/O error in a harness-owned completion order (the archiving epoch keeps its real sig-to-cid index); the search must name the archiving epoch whenever one exists, else fail (not-found exactly when every epoch answered absent). Exploration level with an exhaustive small scope.",
+    "level_text": "Every outcome vector in {success, error, not-found, error wrapping a context deadline/cancellation of the job's own I/O}^n, every concurrency limit and every completion order feasible for that limit is enumerated (n<=4 quick, n<=6 thorough) by gating each job on its own channel, plus rapid samples for n up to 9; the result must be a successful job's value when one exists, else the complete error list; the call must return and leave no goroutine behind. Unit epoch-search applies the same oracle to the caller, MultiEpoch.findEpochNumberFromSignature: 2..5 of five loaded epochs, search concurrency -1..16, each epoch's signature-existence index replaced by a gated stand-in answering present / absent / I/O error in a harness-owned completion order (the archiving epoch keeps its real sig-to-cid index); the search must name the archiving epoch whenever one exists, else fail (not-found exactly when every epoch answered absent). Exploration level with an exhaustive small scope.",
     "level_note": "The harness controls start/finish of every job but not the instant at which FirstSuccess reads a result, so two completions may be observed in swapped order; the oracle is order-independent, so this cannot cause a false alarm. Cancelled request contexts are outside the property.",
     "rule": ("enumeration: outcome vectors x limits {-1,1..n} x DFS over completion orders where at most `limit` started jobs are in flight; sampled unit: rapid draws n in 4..9, outcomes, limit and a feasible order. "
              "non-trivial = >=2 jobs with mixed outcomes where the first job to complete is not a success; distinct by (outcomes, limit, order)"),
@@ -89,7 +89,7 @@ PROPS["C11"] = {
 
 PROPS["C14"] = {
     "technique": "property-based testing with fault injection (rapid): generated payloads x frame layouts x single-frame faults, round-trip oracle on three reassembly paths",
-    "level_text": "Payloads (0..20 KiB quick, 200 KiB thorough) are cut into 1..60 frames laid out as in the schema comment (fan-out 1..10) or as arbitrary trees with permuted next lists and permuted storage order, with CRC64/FNV/no checksum; one fault per faulty case (missing frame, dropped link, duplicated link, bit flip, frame of another payload, two frames swapped). Intact payloads must reassemble byte-identically through tooling.LoadDataFromDataFrames, getTransactionAndMetaFromNode and accum.ObjectsToTransactionsAndMetadata; faulty ones must give an error or exactly the original bytes. Exploration level.",
+    "level_text": "Payloads (0..20 KiB quick, 200 KiB thorough) are cut into 1..60 frames laid out as in the schema comment (fan-out 1..10) or as arbitrary trees with permuted next lists and permuted storage order, with CRC64/FNV/no checksum; one fault per faulty case (missing frame, dropped link, duplicated link, bit flip, frame of another payload, two frames swapped). Intact payloads must reassemble byte-identically through tooling.LoadDataFromDataFrames, getTransactionAndMetaFromNode, parseTransactionAndMetaFromNode (the JSON-RPC path, compared as parsed metadata) and accum.ObjectsToTransactionsAndMetadata; faulty ones must give an error or exactly the original bytes. Exploration level.",
     "level_note": "Domain: a payload without a recorded frame count is a single frame (as the code documents); faults are injected only into payloads carrying checksum and frame count (any frame, including the first and the only one). Trusted: reference encoder, zstd, protobuf.",
     "rule": ("rapid draws payload seed/size, frame count, layout (schema fan-out or random tree), child order, checksum kind, fault kind and target frames; non-trivial = >=3 frames and >=2 levels of next links; distinct by case hash"),
     "assumptions": ["CRC64/FNV collisions on the injected faults are negligible (2^-64)"],
@@ -141,7 +141,7 @@ GSFA_SHRINK = [{"file": "gsfa/gsfa-write.go", "rules": [
 PROPS["C06"] = {
     "technique": "model-based property testing (rapid push histories vs per-address list model) at the real thresholds and on a build with AST-shrunk thresholds; directed search for record lengths on the varint-width boundaries",
     "level_text": "Push histories (interleaved addresses, shared transactions, per-address counts 1,2,999..1001,1999..2001,2500,3000, the all-zero address, generated yields/sleeps between pushes; thorough: >100000 distinct addresses with a push at a slot divisible by 500) are applied to the real writer and to a per-address list; after Close every address must read back exactly its entries newest first, limits must cut prefixes. The same generator runs densely against a build whose batch size / parked-buffer count / periodic-flush thresholds / poll interval are shrunk by an AST rewrite of gsfa-write.go. LinkedLog.Put/ReadWithSize is driven directly with records whose total length is searched to hit 126..131 and 16382..16388. Exploration level.",
-    "level_note": "Goroutine timing of the background flusher is perturbed (generated Gosched/sleeps, shrunk poll interval), not enumerated. The shrunk build differs from the repository only in the five literals listed in the evidence (transforms_applied); if a literal is no longer found the unit runs with the real value.",
+    "level_note": "Goroutine timing of the background flusher is perturbed (generated Gosched/sleeps, shrunk poll interval), not enumerated. The shrunk build differs from the repository only in the seven literals listed in the evidence (transforms_applied; batch size 1000 -> 4, parking slots 256 -> 3, distinct-address threshold 100 000 -> 5, slot modulus 500 -> 5, poll interval, popularity rank 10 000 -> 1, partial-flush threshold 100 -> 2); if a literal is no longer found the unit runs with the real value.",
     "rule": ("real unit: rapid draws 1..8 addresses, a count per address from the boundary list, chunked interleaving, flags and yields; shrunk unit: 1..40 pushes x 1..3 of <=10 addresses x repeat 1..9; linked-log unit: 1..6 chained records, two thirds with a directed target length. "
              "non-trivial = an address with more entries than one batch or a triggered periodic flush (writer units), a record on a varint boundary (record unit); distinct by case hash"),
     "assumptions": ["zstd compression used to size records in the directed search is deterministic"],
@@ -169,7 +169,7 @@ PROPS["C07"] = {
 
 PROPS["C15"] = {
     "technique": "property-based testing (rapid): generated CAR layouts x ignore-sets x callback delays x GOMAXPROCS, callback sequence compared with the generator's offset table",
-    "level_text": "Generated epoch CARs (blocks with 0..N children, Subset nodes in the middle of the file, trailing Subset/Epoch objects, multi-frame payloads; thorough: blocks with >5000 children) are traversed with accum.NewObjectAccumulator(...).Run using every ignore-set class (none, the address indexer's, the splitter's, random), generated callback delays (none/Gosched/50us/500us), GOMAXPROCS 1/2/16 and a fast or slow reader. The callback sequence must be one group per block in file order with exactly the non-ignored objects since the previous block, each with its true CID, offset, section length and bytes, plus one final group for trailing objects; callbacks must not overlap, data handed to a callback must stay intact until it returns, and Run returns only after all callbacks ended. Exploration level.",
+    "level_text": "Generated epoch CARs (blocks with 0..N children, Subset nodes in the middle of the file, trailing Subset/Epoch objects, multi-frame payloads; blocks with 5000 / 5001 / 5200 children - around the accumulator's initial per-group capacity - followed by further groups, with a slow consumer) are traversed with accum.NewObjectAccumulator(...).Run using every ignore-set class (none, the address indexer's, the splitter's, random), generated callback delays (none/Gosched/50us/500us), GOMAXPROCS 1/2/16 and a fast or slow reader. The callback sequence must be one group per block in file order with exactly the non-ignored objects since the previous block, each with its true CID, offset, section length and bytes, plus one final group for trailing objects; callbacks must not overlap, data handed to a callback must stay intact until it returns, and Run returns only after all callbacks ended. Exploration level.",
     "level_note": "Goroutine schedules are perturbed (delays, GOMAXPROCS), not enumerated. Ground truth comes from the cargen CAR writer.",
     "rule": ("rapid draws an epoch spec, ignore-set, delay pattern, GOMAXPROCS and reader speed; non-trivial = >=2 groups and (non-empty ignore set or a delayed callback); distinct by case hash"),
     "assumptions": ["cargen offsets are correct (cross-checked by C01 against the real indexer)"],
@@ -191,7 +191,7 @@ PROPS["C02"] = {
 
 PROPS["C03"] = {
     "technique": "property-based testing with directed collision search (rapid): absent keys whose 24-bit in-bucket hash equals that of a stored key are found with the index's own exported hash functions and queried through JSON-RPC/gRPC/Epoch",
-    "level_text": "Generated epochs with 150..600 extra blocks are indexed (including the address index) and loaded alone or together. For every epoch: every skipped slot around the archived blocks, every absent slot of the epoch whose in-bucket hash collides with a stored slot (up to 12), absent signatures / CIDs / addresses searched until they collide with a stored key, a plainly absent signature and address, and slots/signatures of an epoch that is built but not loaded; every colliding absent CID is also fetched by four goroutines while four others fetch the stored object it collides with (300 rounds). The answer must be not-found / epoch-not-available / null / empty - never a block of another slot, a transaction with another first signature, bytes of another CID or signatures of transactions that do not mention the address. Exploration level.",
+    "level_text": "Generated epochs with 150..600 extra blocks are indexed (including the address index) and loaded alone or together. For every epoch: every skipped slot around the archived blocks, every absent slot of the epoch whose in-bucket hash collides with a stored slot (up to 12), absent signatures / CIDs / addresses searched until they collide with a stored key, a plainly absent signature and address, and slots/signatures of an epoch that is built but not loaded; every colliding absent CID is also fetched by four goroutines while four others fetch the stored object it collides with (300 rounds); after getBlock has served a block, the raw-codec twin (same multihash, other codec) of each of its objects is fetched and must be unknown. The answer must be not-found / epoch-not-available / null / empty - never a block of another slot, a transaction with another first signature, bytes of another CID or signatures of transactions that do not mention the address. Exploration level.",
     "level_note": "The index's exported DB.GetBucket / Bucket.Load / BucketHeader.Hash are used to find colliding keys (search aid, not oracle). Open finding (see known_findings.json): colliding absent addresses in the key-less pubkey index - excluded by construction and reported as KNOWN-FINDING.",
     "rule": ("rapid draws 1..3 epoch specs (+150..600 bulk blocks each), a probe seed and an unloaded epoch; non-trivial = at least one absent key that collides with a stored key in the real index was queried; distinct by case hash; the per-class numbers of colliding keys are in class_counts (n-colliding-*)"),
     "assumptions": ["sha-256/xxhash behave as random functions for the collision search"],
@@ -202,8 +202,8 @@ PROPS["C03"] = {
 
 PROPS["C10"] = {
     "technique": "property-based fault injection over configurations (rapid): generated archives A, B (other epoch), A' (same epoch, other root); every single and pairwise substitution of index files and cross-role swaps, load result compared with an identity-field oracle",
-    "level_text": "Three generated archives are indexed (all five `index all` files + the address index). The configuration of A is loaded with every index role taken from B or A' (singly and in all pairs), with every index file placed in every other role, with all indexes of A' over A's CAR, with A's own files in which one identity field (epoch / root) was replaced, and with B's files whose epoch field was forged to the configured epoch. NewEpochFromConfig must fail exactly when a substituted file has the wrong kind/format, records another epoch than the configuration, or the root-bearing indexes do not all record the same root; it must succeed otherwise, and epoch/root/kind written at build time must be read back. With a foreign CAR under self-consistent indexes (A' and A swapped, and a CAR with exactly A's section layout but altered objects stored under their new CIDs) every CID-addressed fetch, repeated three times, must fail or return bytes whose hash matches the CID. Exploration level.",
-    "level_note": "slot-to-blocktime carries only the epoch, so a block-time file of A' is undetectable by design and is expected to load. The Filecoin/lassie mode needs the network and is not covered. The inner pubkey index of the gsfa directory is not swapped separately.",
+    "level_text": "Three generated archives are indexed (all five `index all` files + the address index). The configuration of A is loaded with every index role taken from B or A' (singly and in all pairs), with every index file placed in every other role, with all indexes of A' over A's CAR, with A's own files in which one identity field (epoch / root) was replaced, with B's files whose epoch field was forged to the configured epoch, and with A's gsfa directory whose offsets index is A's cid-to-offset-and-size file (another kind, same value layout). NewEpochFromConfig must fail exactly when a substituted file has the wrong kind/format, records another epoch than the configuration, or the root-bearing indexes do not all record the same root; it must succeed otherwise, and epoch/root/kind written at build time must be read back. With a foreign CAR under self-consistent indexes (A' and A swapped, and a CAR with exactly A's section layout but altered objects stored under their new CIDs) every CID-addressed fetch, repeated three times, must fail or return bytes whose hash matches the CID. Exploration level.",
+    "level_note": "slot-to-blocktime carries only the epoch, so a block-time file of A' is undetectable by design and is expected to load. The Filecoin/lassie mode needs the network and is not covered. Inside the gsfa directory only the offsets index is swapped (for the cid-to-offset-and-size file); the linked log and the manifest are covered by C12/C13.",
     "rule": ("rapid draws three epoch specs; per case ~140 configurations are derived deterministically (6 roles x {B, A'} singles, 20 cross-role swaps, 60 pairs, all-A'); non-trivial = case in which at least one configuration must be rejected; distinct by case hash; class_counts reports configurations-tried and foreign-car-cid-fetches"),
     "assumptions": ["identity oracle derived from the property statement (kind, epoch, root)"],
     "units": [
@@ -213,7 +213,7 @@ PROPS["C10"] = {
 
 PROPS["C13"] = {
     "technique": "fault injection by truncation + metamorphic property testing (rapid): every file kind built by the real writers from a generated epoch is cut at every offset (small files) or at structure boundaries +-2 plus random offsets; lookups on the truncated copy are compared with the complete file",
-    "level_text": "For each generated epoch the real `index all` and `index gsfa` outputs are truncated: the four compact-index kinds, sig-exists (current and legacy format), slot-to-blocktime, the gsfa linked log / manifest / pubkey index, and the CAR. Some epochs carry their last block on the last slot of the epoch (its values are then the final bytes of the per-slot files). Readers are opened over the truncated bytes (in-memory ReaderAt, or files for the gsfa directory and the epoch level) and every stored key (<=200 per file) is looked up: the answer must equal the complete file's answer or be an error that is not `not found` (no `false`, no empty list, no other value). The same is checked through a loaded Epoch / the JSON-RPC handler with one truncated file. A recording ReaderAt determines for each (cut, key) whether the cut lies before the bytes the complete lookup reads. Exploration level; evidence counts individual lookups.",
+    "level_text": "For each generated epoch the real `index all` and `index gsfa` outputs are truncated: the four compact-index kinds, sig-exists (current and legacy format), slot-to-blocktime, the gsfa linked log / manifest / pubkey index, and the CAR. Some epochs carry their last block on the last slot of the epoch (its values are then the final bytes of the per-slot files). Readers are opened over the truncated bytes (in-memory ReaderAt, or files for the gsfa directory and the epoch level) and every stored key (<=200 per file) is looked up: the answer must equal the complete file's answer or be an error that is not `not found` (no `false`, no empty list, no other value); a gsfa directory that still opens must report the version and metadata of the complete one. The same is checked through a loaded Epoch / the JSON-RPC handler with one truncated file. A recording ReaderAt determines for each (cut, key) whether the cut lies before the bytes the complete lookup reads. Exploration level; evidence counts individual lookups.",
     "level_note": "A crash (panic) on a truncated file is loud and is counted separately (class n:*-panic); crashes are judged by C12, silent wrong answers here. evaluations = generated epochs + individual (file, cut, key) lookups; distinct_nontrivial counts generated epochs with at least one affected lookup, the number of affected lookups is class n:nontrivial.",
     "rule": ("rapid draws an epoch spec and a cut seed; cuts: every offset for files <=4 KiB, else header/table/bucket boundaries +-2 and 60..200 random offsets; keys: every stored key up to 200 per file. non-trivial lookup = the cut lies before the highest byte the complete-file lookup of that key reads"),
     "assumptions": ["reads of a truncated file behave like reads of bytes.Reader / os.File at EOF (short read + io.EOF)"],
